@@ -1140,7 +1140,7 @@ Definition gapless (shs : list sshell) : Prop :=
   map (@am string) shs = map (fun k => [Z.of_nat k]) (seq 0 (List.length shs)).
 
 Lemma parse_electron_block_mc : forall sord zs, el_wf_mc zs -> gapless (snd zs) ->
-  mc_parse_electron_block (inner sord zs) = inr (fst zs, map mc_expected_shell (snd zs)).
+  mc_parse_electron_block (fun _ => ok tt) (inner sord zs) = inr (fst zs, map mc_expected_shell (snd zs)).
 Proof.
   intros sord [z shs] [Hz [Hne Hshs]] Hgap. cbn [fst snd] in *. unfold inner. cbn [fst snd].
   pose proof (mx_of_nonneg shs Hshs) as Hm.
@@ -1148,7 +1148,7 @@ Proof.
   { constructor; [apply scharge_num; lia | apply flat_pshl_num, Hshs]. }
   destruct (remove_opts (cart_of sord shs) _ HR) as [ob [Er Eo]].
   unfold mc_parse_electron_block. rewrite Er. unfold bind. rewrite Eo.
-  rewrite (scharge_match z shs) by lia. rewrite (nuc_charge_ok z) by lia.
+  rewrite (scharge_match z shs) by lia. rewrite (nuc_charge_ok z) by lia. unfold ok at 1. cbv beta iota.
   rewrite (partition_shells_mc shs Hshs).
   destruct (nonneg_string _ Hm) as [_ Hv]. rewrite Hv, map_length, (mx_of_seq shs Hne Hgap).
   match goal with |- context [Z.eqb ?a ?b] => assert (Ec : Z.eqb a b = true) by (apply Z.eqb_eq; cbn [List.length]; change (Z.of_nat 0 + 1)%Z with 1%Z; rewrite Z.mul_1_r, Z.sub_add; reflexivity) end.
